@@ -30,6 +30,10 @@ pub enum CEdit {
     RewriteOlder(u16, u16),
     /// start `group --cache` and SIGKILL it after this many milliseconds
     Kill(u8),
+    /// run `group --cache` under the interposer, block it at its k-th read-side libc call on a tree file
+    /// (stat, open, read, ...), rewrite a file in place with the same length and a new mtime while it is
+    /// blocked, then let it finish: the file changes *during* a cached run; (file selector, k selector)
+    RewriteDuringCachedRun(u16, u16),
     /// create the key file of the `needkey` transform (outside the scanned tree) if it is absent: without
     /// it the transform fails after partial output for every file
     ToggleKey,
@@ -84,6 +88,7 @@ fn case_strategy() -> BoxedStrategy<C12Case> {
         2 => (0u16..u16::MAX, 0u16..u16::MAX).prop_map(|(a, b)| CEdit::RewriteOlder(a, b)),
         1 => (1u8..30).prop_map(CEdit::Kill),
         1 => Just(CEdit::ToggleKey),
+        3 => (0u16..u16::MAX, 0u16..u16::MAX).prop_map(|(a, b)| CEdit::RewriteDuringCachedRun(a, b)),
     ];
     let knob = || prop::option::weighted(0.3, (0u16..u16::MAX).prop_map(|i| SIZE_KNOBS[pick(i, SIZE_KNOBS.len())]));
     let tr = prop::option::weighted(0.3, prop_oneof![Just(TrOp::Cat), Just(TrOp::Upper), Just(TrOp::Head(5000)), Just(TrOp::Head(17000)), Just(TrOp::Expand), Just(TrOp::Header), Just(TrOp::NeedKey), Just(TrOp::NeedKey)].prop_map(|op| Tr { op, io: TrIo::Pipe }));
@@ -143,6 +148,7 @@ struct World {
     inode_reuse: u32,
     same_len_rewrites_after_cached_run: u32,
     older_rewrites: u32,
+    during_run: u32,
 }
 
 fn list(dir: &Path) -> Vec<PathBuf> {
@@ -305,6 +311,67 @@ impl World {
                 let _ = std::fs::hard_link(&p, &q);
                 format!("hardlink {} -> {}", q.display(), p.display())
             }
+            CEdit::RewriteDuringCachedRun(a, ksel) => {
+                let Some(p) = pick_file(*a) else { return String::new() };
+                let Ok(mut b) = std::fs::read(&p) else { return String::new() };
+                if b.is_empty() || !std::path::Path::new(SHIM).exists() {
+                    return String::new();
+                }
+                let o = b.len() / 2;
+                b[o] = b[o].wrapping_add(11 + (self.counter % 100) as u8);
+                self.counter += 1;
+                self.clock_ms += 1;
+                let t = self.clock_ms;
+                let opts = step_opts(step, true);
+                let mut run = Run::fclones(cd).arg("group").args(opts.args()).arg("--threads").arg("1").arg("r");
+                if let Some(d) = opts.disk_env() {
+                    run = run.env("FCLONES_VERIF_DISK_KIND", d);
+                }
+                // recording run on a copy of the cache: which read-side calls (numbered over the whole run)
+                // touch this file? The blocking point is drawn from those (or, one time in four, from all).
+                let rec_cache = cd.base.join("cache.rec");
+                let _ = std::fs::remove_dir_all(&rec_cache);
+                let _ = std::process::Command::new("cp").arg("-a").arg(cd.base.join("cache")).arg(&rec_cache).status();
+                let log_path = cd.base.join("rec.log");
+                let _ = std::fs::remove_file(&log_path);
+                let _ = run.clone().env("XDG_CACHE_HOME", &rec_cache).env("LD_PRELOAD", SHIM).env("FCV_ROOT", cd.tree()).env("FCV_LOG", &log_path).run();
+                let log = std::fs::read_to_string(&log_path).unwrap_or_default();
+                let mut rlines: Vec<(u64, String)> = log
+                    .lines()
+                    .filter_map(|l| {
+                        let f: Vec<&str> = l.split(' ').collect();
+                        if f.len() >= 5 && f[2] == "R" {
+                            Some((f[0].parse().ok()?, f[4].to_string()))
+                        } else {
+                            None
+                        }
+                    })
+                    .collect();
+                rlines.sort();
+                let pe = esc(&path_bytes(&p));
+                let on_file: Vec<usize> = rlines.iter().enumerate().filter(|(_, (_, path))| *path == pe).map(|(i, _)| i + 1).collect();
+                let k = if !on_file.is_empty() && *ksel % 4 != 0 { on_file[pick(*ksel, on_file.len())] } else { 1 + pick(*ksel, rlines.len().max(1)) };
+                let _ = std::fs::remove_dir_all(&rec_cache);
+                let pp = p.clone();
+                let mut rewrite = move || {
+                    if let Ok(mut f) = std::fs::OpenOptions::new().write(true).open(&pp) {
+                        use std::io::Write;
+                        let _ = f.write_all(&b);
+                    }
+                    set_times(&pp, t / 1000, (t % 1000) * 1_000_000, BASE_TIME);
+                };
+                let (_o, paused) = run_paused(&run, &cd.base, &cd.tree(), 'R', k, &mut rewrite);
+                if !paused {
+                    rewrite();
+                }
+                if after_cached_run || paused {
+                    self.same_len_rewrites_after_cached_run += 1;
+                }
+                if paused {
+                    self.during_run += 1;
+                }
+                format!("rewrite-same-len {} @{} {}", p.display(), o, if paused { format!("while `group --cache` was blocked at its read-side call #{}", k) } else { "(after a cached run that had fewer calls)".to_string() })
+            }
             CEdit::ToggleKey => {
                 // only ever absent -> present: a transform whose outcome for an unchanged file turns from
                 // success into failure is not a function of the file any more, and a cache may keep
@@ -347,7 +414,7 @@ pub fn run_case(c: &C12Case, n: u64) -> Verdict {
     let cd = CaseDir::new("c12", n, if c.ext4 { Fs::Ext4 } else { Fs::Tmpfs });
     let dir = cd.tree().join("r");
     std::fs::create_dir_all(&dir).unwrap();
-    let mut w = World { dir: dir.clone(), clock_ms: BASE_TIME * 1000, counter: 0, inode_reuse: 0, same_len_rewrites_after_cached_run: 0, older_rewrites: 0 };
+    let mut w = World { dir: dir.clone(), clock_ms: BASE_TIME * 1000, counter: 0, inode_reuse: 0, same_len_rewrites_after_cached_run: 0, older_rewrites: 0, during_run: 0 };
     let mut mounts: Vec<PathBuf> = vec![];
     let mut twins = 0;
     if c.twin_fs {
@@ -459,6 +526,9 @@ pub fn run_case(c: &C12Case, n: u64) -> Verdict {
     if w.older_rewrites > 0 {
         classes.push("rewrite-with-older-mtime".into());
     }
+    if w.during_run > 0 {
+        classes.push("rewrite-while-a-cached-run-was-blocked".into());
+    }
     if twins > 0 {
         classes.push("twin-file-systems-equal-inode-numbers".into());
     }
@@ -478,7 +548,7 @@ pub fn check(tier: Tier) -> i32 {
     cleanup_process_scratch();
     ctx.finish(
         "exploration",
-        "proptest-generated histories of 1-6 steps over 3-7 files of 5-140 KB that share long prefixes and suffixes (two content classes, single-byte differences at stage-boundary offsets): each step applies 0-3 edits (create, in-place rewrite of the same length with a newer or with an older mtime, make identical to another file, append/truncate with or without keeping the mtime, rename, delete+recreate under the same name - on ext4 the inode is usually reused, counted -, hard link, SIGKILL of a running `group --cache` after 1-29 ms, creation of the key file without which the `needkey` transform fails after partial output) and then runs `group` uncached, cached (cold for this step) and cached again (warm), all with the same options; options (hash fn, transform - also the same program with other arguments -, max-prefix/suffix, pinned device) change on some steps. Every content change gets a fresh mtime (next value of a logical clock with 1 ms steps, or for the 'older' rewrites a fresh value 1 ms below every earlier one): the mtime always changes, which is the premise of the property. In 15 % of the histories the scanned directory holds two freshly mounted tmpfs file systems whose files were created in the same order (equal inode numbers, counted) with equal lengths and mtimes but different bytes. Oracle (model = the uncached tool): report bodies incl. hashes and statistics must be byte-identical. Non-trivial = a same-length in-place rewrite or an inode-reusing recreate after a cached run, followed by a run with the same hash function.",
+        "proptest-generated histories of 1-6 steps over 3-7 files of 5-140 KB that share long prefixes and suffixes (two content classes, single-byte differences at stage-boundary offsets): each step applies 0-3 edits (create, in-place rewrite of the same length with a newer or with an older mtime, make identical to another file, append/truncate with or without keeping the mtime, rename, delete+recreate under the same name - on ext4 the inode is usually reused, counted -, hard link, SIGKILL of a running `group --cache` after 1-29 ms, an in-place same-length rewrite applied while a `group --cache --threads 1` run is blocked by the interposer at its k-th read-side libc call on a tree file (k drawn, after a recording run on a copy of the cache, from the calls that touch the file to be rewritten, or one time in four from all calls), creation of the key file without which the `needkey` transform fails after partial output) and then runs `group` uncached, cached (cold for this step) and cached again (warm), all with the same options; options (hash fn, transform - also the same program with other arguments -, max-prefix/suffix, pinned device) change on some steps. Every content change gets a fresh mtime (next value of a logical clock with 1 ms steps, or for the 'older' rewrites a fresh value 1 ms below every earlier one): the mtime always changes, which is the premise of the property. In 15 % of the histories the scanned directory holds two freshly mounted tmpfs file systems whose files were created in the same order (equal inode numbers, counted) with equal lengths and mtimes but different bytes. Oracle (model = the uncached tool): report bodies incl. hashes and statistics must be byte-identical. Non-trivial = a same-length in-place rewrite or an inode-reusing recreate after a cached run, followed by a run with the same hash function.",
         &["mtimes are set by the harness with millisecond steps", "XDG_CACHE_HOME is private to the history"],
     )
 }
